@@ -109,6 +109,9 @@ func (it *Interp) setupCoroutines(set func(t *Table, name string, fn func(it *In
 		}
 		_, le := it.switchTo(c, coMsg{close: true})
 		if le != nil {
+			// a later close of this coroutine: the manual does not say whether
+			// the error is reported again
+			c.closeErr, c.closedOnce = le, true
 			return []Value{false, le.Value}
 		}
 		return []Value{true}
